@@ -8,6 +8,7 @@ use crate::gen::{random_program, Profile};
 use crate::heapmon;
 use crate::obs::{eval_observed, event_class, ObsCfg, Outcome};
 use crate::print::to_text;
+use crate::val::Val;
 use crate::rng::{hash_str, Rng};
 use crate::sup::{Check, Ctx, Flavour, Stats, Summary, Tier};
 use nederlang::object::{FromString, FromVec, Object, Type};
@@ -393,6 +394,9 @@ impl Heap {
         if self.which == Which::C04 {
             f.push(("abort-points", cut_programs));
         }
+        // millions of allocations in one loop, without a function return in between: what a collector does only "after a
+        // while" (a threshold, a generation, a grown table) happens inside these runs
+        f.push(("long-runs", match (ctx.flavour, ctx.tier) { (Flavour::Miri, _) => 0, (Flavour::Rel, Tier::Thorough) => (LONG_RUNS * 3) as u64, _ => LONG_RUNS as u64 }));
         f.push(("scale", if ctx.flavour == Flavour::Miri { 0 } else { crate::scale::heap_programs(ctx.flavour == Flavour::Rel && ctx.tier == Tier::Thorough).len() as u64 }));
         Families::new(f)
     }
@@ -402,6 +406,7 @@ impl Heap {
         let mut r = Rng::for_case(ctx.seed, 300 + f as u64, i);
         match name {
             "directed" => (name, directed()[i as usize].1.to_string()),
+            "long-runs" => (name, long_run((i as usize) % LONG_RUNS, [400_000, 2_000_000, 8_000_000][(i as usize) / LONG_RUNS]).0),
             "scale" => (name, crate::scale::heap_programs(ctx.flavour == Flavour::Rel && ctx.tier == Tier::Thorough)[i as usize].1.clone()),
             "valgrind" => {
                 let d = directed();
@@ -453,6 +458,10 @@ impl Heap {
 
     /// one evaluation under the heap monitors; records violations; returns the instruction count
     fn eval_and_audit(&self, text: &str, cfg: &ObsCfg, fam: &str, label: &str, st: &mut Stats) -> u64 {
+        self.eval_and_audit_o(text, cfg, fam, label, st).0
+    }
+
+    fn eval_and_audit_o(&self, text: &str, cfg: &ObsCfg, fam: &str, label: &str, st: &mut Stats) -> (u64, Outcome) {
         let o = eval_observed(text, cfg);
         st.evaluations += 1;
         let (reach_f, managed_f) = heapmon::take_findings();
@@ -473,7 +482,7 @@ impl Heap {
                     let c = event_class(e);
                     if c == "use-after-free" || c == "double-free" || c.starts_with("probe:gc") {
                         st.violation(&format!("{}:{}{}", fam, label, c), format!("shadow heap: {:?}; outcome {}", o.events, o.outcome.render()), text);
-                        return o.count;
+                        return (o.count, o.outcome);
                     }
                 }
                 if let Some(f) = reach_f.first() {
@@ -486,14 +495,14 @@ impl Heap {
             Which::C04 => {
                 if o.events.iter().any(|e| event_class(e) == "double-free") {
                     st.violation(&format!("{}:{}double-free", fam, label), format!("{:?}", o.events), text);
-                    return o.count;
+                    return (o.count, o.outcome);
                 }
                 // the returned result must stay valid after the interpreter is gone: the harness walks it and releases
                 // each distinct object once, after eval returned
                 if o.stop_in_walk {
                     let c = o.events.first().map(event_class).unwrap_or_default();
                     st.violation(&format!("{}:{}result-not-valid-after-eval:{}", fam, label, c), format!("eval returned a value, but walking / releasing its object graph afterwards hit: {:?}", o.events), text);
-                    return o.count;
+                    return (o.count, o.outcome);
                 }
                 if let Some(f) = managed_f.first() {
                     st.violation(&format!("{}:{}gc-managed-set", fam, label), f.clone(), text);
@@ -515,7 +524,56 @@ impl Heap {
             }
         }
         verif::clear_ledger();
-        o.count
+        (o.count, o.outcome)
+    }
+}
+
+const LONG_RUNS: usize = 7;
+const LONG_RUN_NAMES: [&str; LONG_RUNS] = ["floats-into-old-array", "strings-into-old-array", "arrays-into-old-array", "old-globals", "inside-a-function", "through-an-old-outer-array", "old-array-from-an-earlier-loop"];
+
+/// (program, value): an array that has survived a collection receives fresh heap values in a loop of `n` iterations that
+/// also makes garbage; after the loop (and one more collection) everything is read back
+fn long_run(which: usize, n: usize) -> (String, Val) {
+    let f = |x: usize| Val::Float(x as f64 * 1.5);
+    let last = |k: usize| -> usize {
+        // the last i < n with i % 8 == k
+        let r = (n - 1) % 8;
+        if r >= k { n - 1 - (r - k) } else { n - 1 - r - (8 - k) }
+    };
+    let floats: Vec<Val> = (0..8).map(|k| f(last(k))).collect();
+    // a second old array is written only five times in the whole run (at i = 0, p, 2p, 3p, 4p): whatever the collector
+    // does in between, these values are still there at the end
+    let p = n / 5 + 1;
+    match which {
+        0 => (
+            format!("functie maak() {{ [0.5, 0.5, 0.5, 0.5, 0.5, 0.5, 0.5, 0.5] }}; functie lees() {{ 0 }}; stel oud = maak(); stel zelden = maak(); stel i = 0; zolang i < {n} {{ oud[i % 8] = float(i) * 1.5; als i % {p} == 0 {{ zelden[i / {p}] = float(i) * 1.5; 0 }}; stel rommel = [i, \"weg\"]; i += 1 }}; lees(); [oud[0], oud[1], oud[2], oud[3], oud[4], oud[5], oud[6], oud[7], zelden]", n = n, p = p),
+            Val::Array(floats.iter().cloned().chain(std::iter::once(Val::Array((0..8).map(|k| if k < 5 { f(k * p) } else { Val::Float(0.5) }).collect()))).collect()),
+        ),
+        1 => (
+            format!("functie maak() {{ [\"\", \"\", \"\", \"\", \"\", \"\", \"\", \"\"] }}; functie lees() {{ 0 }}; stel oud = maak(); stel zelden = maak(); stel i = 0; zolang i < {n} {{ oud[i % 8] = string(i); als i % {p} == 0 {{ zelden[i / {p}] = string(i); 0 }}; stel rommel = [float(i) * 0.5]; i += 1 }}; lees(); [oud[0], oud[1], oud[2], oud[3], oud[4], oud[5], oud[6], oud[7], zelden]", n = n, p = p),
+            Val::Array((0..8).map(|k| Val::Str(format!("{}", last(k)))).chain(std::iter::once(Val::Array((0..8).map(|k| if k < 5 { Val::Str(format!("{}", k * p)) } else { Val::Str(String::new()) }).collect()))).collect()),
+        ),
+        2 => (
+            format!("functie maak() {{ [0, 0, 0, 0, 0, 0, 0, 0] }}; functie lees() {{ 0 }}; stel oud = maak(); stel zelden = maak(); stel i = 0; zolang i < {n} {{ oud[i % 8] = [i, [float(i) * 1.5]]; als i % {p} == 0 {{ zelden[i / {p}] = [i, [float(i) * 1.5]]; 0 }}; stel rommel = string(i); i += 1 }}; lees(); [oud[0], oud[3], oud[7], zelden]", n = n, p = p),
+            Val::Array([0usize, 3, 7].iter().map(|&k| Val::Array(vec![Val::Int(last(k) as i64), Val::Array(vec![f(last(k))])])).chain(std::iter::once(Val::Array((0..8).map(|k| if k < 5 { Val::Array(vec![Val::Int((k * p) as i64), Val::Array(vec![f(k * p)])]) } else { Val::Int(0) }).collect()))).collect()),
+        ),
+        3 => (
+            format!("functie lees() {{ 0 }}; stel g0 = 0.5; stel g1 = \"een\"; stel g2 = [0.5]; lees(); stel i = 0; zolang i < {n} {{ g0 = float(i) * 1.5; g1 = string(i); g2 = [g0, g1]; stel rommel = [i]; i += 1 }}; lees(); [g0, g1, g2]", n = n),
+            Val::Array(vec![f(n - 1), Val::Str(format!("{}", n - 1)), Val::Array(vec![f(n - 1), Val::Str(format!("{}", n - 1))])]),
+        ),
+        4 => (
+            format!("functie maak() {{ [0.5, 0.5, 0.5, 0.5, 0.5, 0.5, 0.5, 0.5] }}; functie werk() {{ stel oud = maak(); stel laatste = 0.5; stel i = 0; zolang i < {n} {{ oud[i % 8] = float(i) * 1.5; laatste = [float(i) * 1.5]; stel rommel = [i, \"weg\"]; i += 1 }}; [oud, laatste] }}; werk()", n = n),
+            Val::Array(vec![Val::Array(floats), Val::Array(vec![f(n - 1)])]),
+        ),
+        5 => (
+            format!("functie maak() {{ [[0.5, 0.5, 0.5, 0.5, 0.5, 0.5, 0.5, 0.5], \"buiten\"] }}; functie lees() {{ 0 }}; stel buiten = maak(); stel i = 0; zolang i < {n} {{ stel binnen = buiten[0]; binnen[i % 8] = float(i) * 1.5; stel rommel = [i, \"weg\"]; i += 1 }}; lees(); buiten", n = n),
+            Val::Array(vec![Val::Array(floats), Val::Str("buiten".to_string())]),
+        ),
+        _ => (
+            // the old array is made by an earlier loop of the same size (no function at all until the end)
+            format!("stel oud = [0.5, 0.5, 0.5, 0.5, 0.5, 0.5, 0.5, 0.5]; stel j = 0; zolang j < {n} {{ stel rommel = [float(j) * 0.5]; j += 1 }}; stel i = 0; zolang i < {n} {{ oud[i % 8] = float(i) * 1.5; stel rommel = [i, \"weg\"]; i += 1 }}; functie lees() {{ 0 }}; lees(); oud", n = n),
+            Val::Array(floats),
+        ),
     }
 }
 
@@ -640,6 +698,26 @@ impl Check for Heap {
                         }
                     }
                     Err(e) => st.inconclusive(format!("valgrind could not be started: {}", e)),
+                }
+            }
+            "long-runs" => {
+                heapmon::install();
+                let iterations = [400_000usize, 2_000_000, 8_000_000][(i as usize) / LONG_RUNS];
+                let (text, want) = long_run((i as usize) % LONG_RUNS, iterations);
+                let mut cfg = Self::cfg(ctx);
+                cfg.budget = Some(iterations as u64 * 80);
+                st.add("long-runs:loop-iterations", iterations as u64);
+                let (n, outcome) = self.eval_and_audit_o(&text, &cfg, name, &format!("{}:", LONG_RUN_NAMES[(i as usize) % LONG_RUNS]), st);
+                st.add("long-runs:instructions", n);
+                st.distinct_hash(hash_str(&text));
+                match &outcome {
+                    Outcome::Value(v) if crate::val::same_val(v, &want) => {}
+                    Outcome::Stop => {}
+                    other => st.violation(
+                        &format!("{}:{}:{}", name, LONG_RUN_NAMES[(i as usize) % LONG_RUNS], if matches!(other, Outcome::Value(_)) { "value".to_string() } else { other.class() }),
+                        format!("after {} iterations: expected {}, got {}", iterations, crate::obs::clip(&crate::val::render_val(&want), 300), crate::obs::clip(&other.render(), 300)),
+                        &text,
+                    ),
                 }
             }
             _ => {
